@@ -97,10 +97,24 @@ def write_replay(pid, payload):
 
 
 def safe_real(mod, case):
+    from . import values as _V
+    del _V.DESC_MISMATCH[:]
     try:
-        return mod.run_real(case)
+        obs = mod.run_real(case)
     except Exception as e:  # harness bug or an exception class the module did not map: keep it visible
         return {"harness_exception": type(e).__name__, "msg": str(e)[:300], "tb": traceback.format_exc()[-800:]}
+    if _V.DESC_MISMATCH and getattr(mod, "CHECK_BUILT_DESCRIPTOR", False) and isinstance(obs, dict):
+        obs["_desc_mismatch"] = list(_V.DESC_MISMATCH)
+    return obs
+
+
+def oracle_of(mod, case, obs):
+    """the module's oracle, preceded (for the round-trip properties that opt in) by the generic check that every
+    record the case declared carries the descriptor it was declared with"""
+    if isinstance(obs, dict) and obs.get("_desc_mismatch"):
+        m = obs["_desc_mismatch"][0]
+        return f"a record declared as {m['declared']} carries the descriptor {m['carries']} before it is written"[:400]
+    return mod.oracle(case, obs)
 
 
 def _worker(args):
@@ -154,7 +168,7 @@ def evaluate(mod, cases, workers, use_model=True):
             harness_errors.append((c, o))
             continue
         try:
-            f = mod.oracle(c, o)
+            f = oracle_of(mod, c, o)
         except Exception as e:
             harness_errors.append((c, {"harness_exception": type(e).__name__, "msg": "oracle: " + str(e)[:300],
                                        "tb": traceback.format_exc()[-800:]}))
@@ -252,7 +266,7 @@ def check(pid, tier, seed, replay, no_lean=False):
             print(f"replay {replay}: no concrete input stored (broken obligation: {payload.get('broken')})")
             return 1
         o = safe_real(mod, case)
-        f = mod.oracle(case, o) if "harness_exception" not in (o if isinstance(o, dict) else {}) else str(o)
+        f = oracle_of(mod, case, o) if "harness_exception" not in (o if isinstance(o, dict) else {}) else str(o)
         print(json.dumps({"case": case, "observed": o, "failure": f}, indent=1, default=repr)[:6000])
         if f:
             print(f"VIOLATION property={pid} replay={replay}")
@@ -326,7 +340,7 @@ def check(pid, tier, seed, replay, no_lean=False):
         o = safe_real(mod, w)
         fail = None
         if not (isinstance(o, dict) and "harness_exception" in o):
-            fail = mod.oracle(w, o)
+            fail = oracle_of(mod, w, o)
         if fail:
             kf_lines.append(f"KNOWN-FINDING: property={pid} {f['what']}")
             kf_confirmed.append(f["id"])
@@ -365,12 +379,12 @@ def check(pid, tier, seed, replay, no_lean=False):
             oo = safe_real(mod, cand)
             if isinstance(oo, dict) and "harness_exception" in oo:
                 return False
-            ff = mod.oracle(cand, oo)
+            ff = oracle_of(mod, cand, oo)
             return bool(ff) and not attributed(cand, oo, ff)
 
         c2 = shrink(mod, c, still)
         o2 = safe_real(mod, c2)
-        f2 = mod.oracle(c2, o2) or f
+        f2 = oracle_of(mod, c2, o2) or f
         path = write_replay(pid, {"case": c2, "observed": o2, "failure": f2, "seed": seed, "tier": tier,
                                   "unshrunk_case": c if c2 != c else None,
                                   "broken_obligations": [b["name"] for b in broken]})
